@@ -9,7 +9,9 @@ mod verif_is_newer {
         kani::assume(secs > -1_000_000_000_000 && secs < 1_000_000_000_000);
         kani::assume(nanos >= 0 && nanos < 1_000_000_000);
         NetAddress {
-            addr: std::net::SocketAddr::from(([0, 0, 0, 0], 0)),
+            // the address is symbolic too (every IPv4 / IPv6 address and port): the order must not depend on it
+            addr: if kani::any() { std::net::SocketAddr::from((kani::any::<[u8; 4]>(), kani::any::<u16>())) }
+                  else { std::net::SocketAddr::from((kani::any::<[u8; 16]>(), kani::any::<u16>())) },
             version: kani::any(),
             timestamp: time::UNIX_EPOCH + time::Duration::new(secs, nanos),
         }
